@@ -161,7 +161,18 @@ TermTable == [
     cid_exact   |-> [n |-> {},                    c |-> {"cid"}],           \* "KITCHEN-tv"
     cname_sub   |-> [n |-> {},                    c |-> {"named"}],         \* laptop
     cname_exact |-> [n |-> {},                    c |-> {"named"}],         \* "dads-laptop"
-    nomatch     |-> [n |-> {},                    c |-> {}] ]               \* zzz-nothing
+    nomatch     |-> [n |-> {},                    c |-> {}],                \* zzz-nothing
+    \* Degenerate terms.  Read as substrings where they are not a quoted value:
+    q_one       |-> [n |-> {"quo"},               c |-> {}],                \* "     (one double quote)
+    q_lead      |-> [n |-> {"quo"},               c |-> {}],                \* "y    (quote only in front)
+    q_trail     |-> [n |-> {"quo"},               c |-> {}],                \* x\"   (quote only at the end)
+    ws          |-> [n |-> {},                    c |-> {"cid", "cid2"}],   \* one space (the client names have one)
+    \* A quoted empty value and a quoted quote: the statement does not say what
+    \* they select (LooseTerms): only "no crash" is required; the sets below are
+    \* the universe a reply may draw from.
+    q_empty     |-> [n |-> Names,                 c |-> Clients],           \* ""
+    q_triple    |-> [n |-> Names,                 c |-> Clients] ]          \* """
+LooseTerms == {"q_empty", "q_triple"}
 Terms == DOMAIN TermTable
 TermMatches(t, e) == e.name \in TermTable[t].n \/ e.cli \in TermTable[t].c
 
@@ -186,7 +197,12 @@ StatusTable == [
     whitelisted          |-> {"allow"},
     rewritten            |-> Rewrites,
     safe_search          |-> {"safesearch"},
-    processed            |-> Reasons \ {"block", "service", "allow"} ]
+    processed            |-> Reasons \ {"block", "service", "allow"},
+    \* Values outside the enumeration (LooseStatuses): only "no crash".
+    bad_quote            |-> Reasons,           \* "   (one double quote)
+    bad_word             |-> Reasons,           \* bogus
+    bad_quoted           |-> Reasons ]          \* "all" (a valid value in quotes)
+LooseStatuses == {"bad_quote", "bad_word", "bad_quoted"}
 Statuses == DOMAIN StatusTable
 StatusMatches(s, e) == e.reason \in StatusTable[s]
 
@@ -232,6 +248,7 @@ Cut(s, off, lim) == IF off >= Len(s) THEN <<>> ELSE SubSeq(s, off + 1, Min2(Len(
 (* the timestamp of a stored entry (the only cursors the API hands out).   *)
 WellFormed(p, s) ==
     /\ p.limit >= 1 /\ p.offset >= 0
+    /\ p.term \notin LooseTerms /\ p.status \notin LooseStatuses
     /\ (p.older = 0 \/ \E i \in DOMAIN s : s[i].ts = p.older)
 
 (* The on-disk records a request has to go through, newest first.           *)
@@ -304,7 +321,7 @@ SkipSigReply(p)   == Reply(p, SubSeq(Disk, 1, Len(Disk) - 1) \o mem)
 (* The signature is the reply computed without the on-disk entries missed   *)
 (* in this way.  Used only to classify.                                     *)
 RawMissNames(t) ==
-    IF t = "none" THEN {}
+    IF t = "none" \/ t \in LooseTerms THEN {}
     ELSE (TermTable[t].n \cap {"quo"}) \cup (IF t \in {"amp_sub", "amp_exact"} THEN {"amp"} ELSE {})
 EscMissed(p, e)  == e.name \in RawMissNames(p.term) /\ e.cli \notin TermTable[p.term].c
 EscSigApplies(p) == \E i \in DOMAIN Disk : EscMissed(p, Disk[i])
@@ -341,7 +358,7 @@ Init ==
     /\ lastReply = [st |-> "none"]
     \* Direction A: hand the vocabulary tables to the harness, which binds
     \* them to its concrete strings before it runs anything.
-    /\ EmitEdges => PrintT(<<"@@V", ToJson([k |-> "t", kinds |-> KindTable, terms |-> TermTable,
+    /\ EmitEdges => PrintT(<<"@@V", ToJson([k |-> "t", kinds |-> KindTable, terms |-> TermTable, loose |-> LooseTerms,
                                               rawmiss |-> [t \in Terms |-> RawMissNames(t)]])>>)
 
 (* Push e into the ring: the oldest element is overwritten when it is full. *)
@@ -441,16 +458,25 @@ AutoFlush ==
     /\ UNCHANGED <<rot, batch, memSize, fileEnabled, enabled, anon, clock, pal, recorded, inScope, lastReply>>
 
 (* Rotate renames querylog.json to querylog.json.1; the previous rotated    *)
-(* file is aged out.  Without a current file the code does nothing; the     *)
-(* statement would equally allow the rotated file to be aged out then, so   *)
-(* both outcomes are admitted.                                              *)
+(* file is aged out by being replaced.  "Rotation ageing out its file" is   *)
+(* the only way the statement lets a rotated entry go, and a file is aged   *)
+(* out by the *next* file taking its place: when there is no current file   *)
+(* there is nothing to rotate and nothing is aged out -- Rotate is enabled   *)
+(* then, and changes nothing.                                               *)
 Rotate ==
     /\ \/ cur # <<>> /\ rot' = cur /\ cur' = <<>>
        \/ cur = <<>> /\ UNCHANGED <<rot, cur>>
-       \/ cur = <<>> /\ rot # <<>> /\ rot' = <<>> /\ cur' = <<>>
     /\ recorded' = IF rot' = rot THEN recorded
                    ELSE SelectSeq(recorded, LAMBDA x : \A i \in DOMAIN rot : rot[i].ts # x.ts)
     /\ UNCHANGED <<mem, batch, flushPending, memSize, fileEnabled, enabled, anon, clock, pal, inScope, lastReply>>
+
+(* RotateCheck: the periodic check (checkAndRotate: at start, then hourly)   *)
+(* rotates only when the oldest entry of the current file is older than the *)
+(* rotation interval.  No behaviour of this universe lasts that long (the   *)
+(* interval is at least an hour), so the check never has anything to do, in *)
+(* whatever state it finds the files -- in particular with a rotated file   *)
+(* and no current one.  Restart includes it (the check at start).           *)
+RotateCheck == UNCHANGED vars
 
 (* Clear takes the flush lock, so it cannot fall between Enc and App.       *)
 Clear ==
@@ -621,6 +647,7 @@ DoAutoFlush == AutoFlush /\ Edge("autoflush", [x |-> 0])
 DoAppFails  == Faults /\ AppFails /\ Edge("appfail", [x |-> 0])
 DoAutoFlushFails == Faults /\ AutoFlushFails /\ Edge("autoflushfail", [x |-> 0])
 DoRotate    == Calm /\ Rotate /\ Edge("rotate", [x |-> 0])
+DoRotCheck  == Calm /\ batch = <<>> /\ RotateCheck /\ Edge("rotcheck", [x |-> 0])
 DoClear     == Calm /\ Clear /\ Edge("clear", [x |-> 0])
 DoConf ==
     /\ Calm
@@ -634,7 +661,7 @@ DoSearch == Quiescent /\ ~EmitEdges /\ (\E p \in SearchParams : SearchP(p))
 
 Next ==
     \/ DoRec \/ DoEnc \/ AutoEnc \/ DoApp \/ DoAutoFlush \/ DoAppFails \/ DoAutoFlushFails
-    \/ DoRotate \/ DoClear \/ DoConf \/ DoRestart
+    \/ DoRotate \/ DoRotCheck \/ DoClear \/ DoConf \/ DoRestart
     \/ DoSearch \/ Observe
 
 Spec == Init /\ [][Next]_vars
